@@ -385,7 +385,7 @@ def _c06(prop, tier, seed, jobs, limit):
                'beartype.claw._package.clawpkgcontext', 'beartype.claw._package._clawpkgmake',
                'beartype.claw._clawstate', 'beartype.claw._importlib.clawimpmain'],
         extra_assumptions=['names are valid dotted identifiers (make_package_names_from_args replaced by a pass-through; syntax validation is outside the claim)',
-                           'symbolic labels differ from every built-in blacklisted package name',
+                           'a symbolic label may equal the built-in excluded package name \'beartype\' (re-keyed as a label constant; the model answers None for every name below it); the other built-in excluded names and the loader-side BLACKLIST_CLAW_PACKAGE_NAMES_REGEX are outside the claim',
                            'skip lists are exercised by calling _blacklist_packages directly (the glue line in hook_packages is not)',
                            'configurations are 3 concrete, pairwise different BeartypeConf objects; equality patterns among them are enumerated by index',
                            'bounds: <= 2 operations (quick) / <= 3 (thorough) + beartyping blocks, names of <= 2 / <= 3 labels, query of <= 3 labels'],
